@@ -95,8 +95,13 @@ struct Worker {
     const char* where = "";      // current operation (for Hang reports)
 };
 
+// start gate: workers begin their programs only after every worker of the execution has been created
+inline std::atomic<bool>& gate() { static std::atomic<bool> g{true}; return g; }
+struct GateGuard { GateGuard() { gate() = false; } ~GateGuard() { gate() = true; } void open() { gate() = true; } };
+
 inline void* worker_entry(void* a) {
     auto w = (Worker*)a;
+    while (!gate().load()) photon::thread_yield();
     w->body();
     w->done.store(true);
     return nullptr;
@@ -134,5 +139,32 @@ inline bool wait_done(std::vector<Worker*>& ws, uint64_t timeout_us, const char*
     }
     return true;
 }
+
+// Watchdog (plain OS thread): if no event has been recorded for `secs` seconds the process is stuck in a way the photon-level
+// wait loops cannot see (e.g. an OS thread spinning forever on a spinlock).  It records a Hang event and ends the process
+// with exit code 4; the trace up to that point shows which calls had been invoked and had not returned.
+struct Watchdog {
+    std::thread th; std::atomic<bool> stop{false};
+    void start(int secs, const char* what) {
+        th = std::thread([this, secs, what] {
+            uint64_t last = vt::sink().n; int idle = 0;
+            while (!stop.load()) {
+                usleep(250 * 1000);
+                uint64_t n = vt::sink().n;
+                if (n != last) { last = n; idle = 0; continue; }
+                if (++idle < secs * 4) continue;
+                auto& s = vt::sink();
+                for (int i = 0; i < 2000 && s.lk.test_and_set(std::memory_order_acquire); i++) usleep(1000);
+                if (s.f) {
+                    fwrite(s.buf.data(), 1, s.buf.size(), s.f);
+                    fprintf(s.f, "{\"e\":\"Hang\",\"blocked\":[],\"where\":\"watchdog: no event recorded for %d s\",\"what\":\"%s\"}\n", secs, what);
+                    fflush(s.f);
+                }
+                _exit(4);
+            }
+        });
+    }
+    void end() { stop = true; if (th.joinable()) th.join(); }
+};
 
 }  // namespace vtp
